@@ -308,6 +308,7 @@ func checkC11(c *Ctx) {
 
 	// ---------------- R11.3 ----------------
 	c11Shared(c)
+	c11Config(c)
 	// ---------------- R11.5 ----------------
 	c11Key(c, minL)
 	// ---------------- R11.8 ----------------
@@ -596,4 +597,64 @@ func containsS(l []string, s string) bool {
 		}
 	}
 	return false
+}
+
+
+// c11Config: what a Config's Sampling section asks for is what the sampler gets: installed whenever the section is
+// present (N = M = 0 is a valid request: drop everything), Initial → first, Thereafter → thereafter, one-second tick.
+func c11Config(c *Ctx) {
+	c.Rule("R11.9", "Config.Sampling is wired to the sampler: installed iff present, Initial→first, Thereafter→thereafter, tick = 1s; NewSampler passes its arguments on in order", 2)
+	if g, pos, ok := ConfigOptionGuards(c, "WrapCore"); ok {
+		rn := c.Method(ZapPath, "Config", "buildOptions").Params[0].Name()
+		c.Check(len(g) == 1 && g[0] == rn+".Sampling != nil", "R11.9", "(go.uber.org/zap.Config).buildOptions", "sampler-installed-iff-configured", pos, "the sampling core is installed under exactly {%s.Sampling != nil} (found {%s})", rn, strings.Join(g, ", "))
+	} else {
+		c.Bad("R11.9", "(go.uber.org/zap.Config).buildOptions", "sampler-installed-iff-configured", pos, "Config.buildOptions never wraps the core in a sampler")
+	}
+	n := 0
+	c.EachRootFunc(func(fn *ssa.Function) {
+		if fn.Pkg == nil || (fn.Pkg.Pkg.Path() != ZapPath && fn.Pkg.Pkg.Path() != CorePath) {
+			return
+		}
+		for _, cl := range Calls(fn) {
+			if !IsCallTo(cl, CorePath+".NewSamplerWithOptions", CorePath+".NewSampler") {
+				continue
+			}
+			a := Args(cl)
+			if len(a) < 4 {
+				continue
+			}
+			n++
+			var d1, d2, d3 string
+			Bound(func() { d1, d2, d3 = Desc(a[1]), Desc(a[2]), Desc(a[3]) })
+			if fn.Pkg.Pkg.Path() == CorePath {
+				// NewSampler delegating to NewSamplerWithOptions: parameters passed on in order
+				ok := len(fn.Params) >= 4 && Strip(a[1]) == ssa.Value(fn.Params[1]) && Strip(a[2]) == ssa.Value(fn.Params[2]) && Strip(a[3]) == ssa.Value(fn.Params[3])
+				c.Check(ok, "R11.9", FuncKey(fn), "passes-on-in-order", cl.Pos(), "tick, first and thereafter are passed on in this order (%s, %s, %s)", d1, d2, d3)
+				continue
+			}
+			tick, isC := ConstInt(a[1])
+			ok := isC && tick == 1000000000 && strings.HasSuffix(d2, ".Initial") && strings.HasSuffix(d3, ".Thereafter")
+			c.Check(ok, "R11.9", FuncKey(fn), "config-arguments", cl.Pos(), "the sampler is built with tick = 1s, first = Sampling.Initial, thereafter = Sampling.Thereafter (found tick=%s first=%s thereafter=%s)", d1, d2, d3)
+		}
+	})
+	nw := c.Func(CorePath, "NewSamplerWithOptions")
+	named := c.Named(CorePath, "sampler")
+	if nw != nil && named != nil && len(nw.Params) >= 4 {
+		bf := BuiltFields(nw, named)
+		ok := bf["tick"].Val != nil && Strip(bf["tick"].Val) == ssa.Value(nw.Params[1]) && bf["first"].Val != nil && bf["thereafter"].Val != nil
+		if ok {
+			f, t := Strip(bf["first"].Val), Strip(bf["thereafter"].Val)
+			if cv, isCv := f.(*ssa.Convert); isCv {
+				f = cv.X
+			}
+			if cv, isCv := t.(*ssa.Convert); isCv {
+				t = cv.X
+			}
+			ok = f == ssa.Value(nw.Params[2]) && t == ssa.Value(nw.Params[3])
+		}
+		c.Check(ok, "R11.9", nw.String(), "parameters-to-fields", nw.Pos(), "the constructor stores tick, first, thereafter into the fields of the same name (first=%s thereafter=%s tick=%s)", bf["first"].Desc, bf["thereafter"].Desc, bf["tick"].Desc)
+	}
+	if n == 0 {
+		c.Bad("R11.9", "sampler constructors", "count", token.NoPos, "no call of NewSampler/NewSamplerWithOptions found")
+	}
 }
